@@ -830,6 +830,8 @@ def r4_fixpoint_loops(ctx, chk, rule="C06.4"):
                             upd = L.update.get(pa[2])
                             if upd is not None and (upd == b_ or unwrap(upd) == unwrap(b_)) and not any(x[0] == "acc" and x[1] == L.id and x[2] == pa[2] for x in C02._sub(b_)):
                                 ok = True
+                    if not any(x[0] == "acc" and x[1] == L.id for x in C02._sub(u)):
+                        recognised = True       # two values of the SAME round are compared: nothing carried over from the previous one
                 if ok and not L.has_break:
                     chk.ok(rule, where, "fixed-point loop: `%s` becomes true when two consecutive rounds agree, and the previous round is replaced by the current one" % done)
                     continue
